@@ -19,6 +19,16 @@
 (*                                                                         *)
 (* Stream ids of the model universe: 0 (connection), 1 3 5 (client), 2     *)
 (* (even: never legal from a client).                                      *)
+(*                                                                         *)
+(* Flow-control ledger (RFC 9113 6.9, 6.9.1, 6.9.2): the reaction to       *)
+(* WINDOW_UPDATE and to SETTINGS(INITIAL_WINDOW_SIZE) depends on history - *)
+(* on the windows the earlier WINDOW_UPDATEs, SETTINGS changes and the     *)
+(* response bytes already sent have left behind. The state carries the     *)
+(* real numbers: iws (the peer's current INITIAL_WINDOW_SIZE), cw (the     *)
+(* connection send window), sw[x] (send window of every stream of the map) *)
+(* and rem[x] (response body bytes not yet sent because the window is      *)
+(* closed). TLC computes with the true values (2^31-1 fits its integers;   *)
+(* every sum is guarded by Over so that nothing overflows).                *)
 (***************************************************************************)
 EXTENDS Naturals, Sequences, FiniteSets, SequencesExt, TLC, Json
 
@@ -40,8 +50,10 @@ CONSTANTS MaxStreams,      \* advertised SETTINGS_MAX_CONCURRENT_STREAMS
           MaxDepth,        \* bound on the number of peer/backend steps of a behaviour
           MaxValid,        \* generator: length of the valid prefix
           Deviations,      \* open known findings modelled as the code behaves
-          Emit             \* "off" (depth-bounded) | "mc" (valid prefix, then arbitrary frames) |
+          Emit,            \* "off" (depth-bounded) | "mc" (valid prefix, then arbitrary frames) |
                            \* "cover" (one REPLAY line per prefix state) | "walk" (one REPLAY line per behaviour)
+          Focus            \* "all" | "win": the valid prefix (and, for walks, every frame) is drawn from the
+                           \* flow-control alphabet WinAlphabet, so that the bounded prefix is spent on the ledger
 
 VARIABLES st, hist
 vars == <<st, hist>>
@@ -49,6 +61,26 @@ vars == <<st, hist>>
 Generating == Emit \in {"cover", "walk"}    \* generator configurations (S->I): histories are recorded
 Sid5    == {0, 1, 2, 3, 5}
 IsEven(x) == x # 0 /\ x % 2 = 0
+
+---------------------------------------------------------------------------
+(* Flow-control numbers *)
+WMax == 2147483647            \* 2^31-1
+WDef == 65535                 \* initial value of every window
+BigBody == 100                \* response body of a "big" answer of the mock backend (bytes)
+SmallBody == 2                \* response body of an "ok" answer
+\* w + d > 2^31-1, without computing the sum
+Over(w, d) == d > 0 /\ w > 0 /\ d > WMax - w
+Min2(a, b) == IF a < b THEN a ELSE b
+\* WINDOW_UPDATE increments: near + WDef = 2^31-2, tomax + WDef = 2^31-1
+WuInc(p) == CASE p = "inc1" -> 1 [] p = "near" -> WMax - WDef - 1 [] p = "tomax" -> WMax - WDef
+              [] p = "incmax" -> WMax [] OTHER -> 0
+\* SETTINGS_INITIAL_WINDOW_SIZE values (all legal by themselves: <= 2^31-1)
+IwsPay == {"iws_up", "iws_def", "iws_0", "iws_10", "iws_max"}
+IwsVal(p) == CASE p = "iws_up" -> WDef + 1 [] p = "iws_def" -> WDef [] p = "iws_0" -> 0 [] p = "iws_10" -> 10
+               [] OTHER -> WMax
+\* abstract class of a window (generator bookkeeping: which ledger situations were replayed)
+LClass(w) == CASE w < 0 -> "neg" [] w = 0 -> "zero" [] w = WMax -> "max" [] w >= WMax - WDef - 1 -> "near"
+               [] w = WDef -> "def" [] w < WDef -> "low" [] OTHER -> "raised"
 
 ---------------------------------------------------------------------------
 (* Reactions *)
@@ -91,6 +123,7 @@ SettingsFrames ==
    F("SETTINGS", "ACK", 0, "ok", "benign"), F("SETTINGS", "-", 0, "bad", "-"),
    F("SETTINGS", "-", 1, "zero", "-"), F("SETTINGS", "-", 0, "huge", "-")}
   \cup {F("SETTINGS", "-", 0, "ok", p) : p \in {"benign", "push2", "win_big", "frame_small", "unknown_id"}}
+  \cup {F("SETTINGS", "-", 0, "ok", p) : p \in IwsPay}
 PushFrames == {F("PUSH", "EH", s, "ok", "req") : s \in {0, 1, 2}}
 PingFrames ==
   {F("PING", fl, s, "ok", "-") : fl \in {"-", "ACK"}, s \in {0, 1}} \cup {F("PING", "-", 0, "bad", "-")}
@@ -100,6 +133,7 @@ GoawayFrames ==
 WuFrames ==
   {F("WU", "-", s, "ok", p) : s \in Sid5, p \in {"inc1", "inc0", "incmax"}}
   \cup {F("WU", "-", s, "bad", "-") : s \in {0, 1}}
+  \cup {F("WU", "-", s, "ok", p) : s \in {0, 1, 3}, p \in {"near", "tomax"}}
 PuFrames ==
   {F("PU", "-", 0, "ok", p) : p \in {"ps1", "ps0", "ps5"}}
   \cup {F("PU", "-", 1, "ok", "ps1"), F("PU", "-", 0, "bad", "-")}
@@ -142,13 +176,20 @@ InitState == [cs |-> "preface",           \* preface | settingsWait | open | dra
               hpSozu |-> FALSE,           \* sozu's decoder has seen a block inserting it
               rsent |-> {},               \* rst_sent entries that outlive their stream
               fc |-> ZeroCounters,
+              iws |-> WDef,               \* peer_settings.settings_initial_window_size
+              cw |-> WDef,                \* flow_control.window: connection send window
+              sw |-> [x \in OddSids |-> 0],    \* stream send window (streams of the map; 0 otherwise)
+              rem |-> [x \in OddSids |-> 0],   \* response body bytes held back by a closed window
               depth |-> 0, nvalid |-> 0, nany |-> 0]
 
 InMap(s, x)  == x \in OddSids /\ s.ss[x] \in {"hdr", "open", "hcr"}
 Active(s)    == Cardinality({x \in OddSids : InMap(s, x)})
 Dead(s)      == s.cs = "closed" \/ s.gs
 Max2(a, b)   == IF a > b THEN a ELSE b
-SetSS(s, x, v) == IF x \in OddSids THEN [s EXCEPT !.ss[x] = v] ELSE s
+\* a stream that leaves the map takes its window and its unsent bytes with it
+SetSS(s, x, v) == IF x \notin OddSids THEN s
+                  ELSE IF v \in {"hdr", "open", "hcr"} THEN [s EXCEPT !.ss[x] = v]
+                  ELSE [s EXCEPT !.ss[x] = v, !.sw[x] = 0, !.rem[x] = 0]
 StOf(s, x)   == IF x \in OddSids THEN s.ss[x] ELSE "even"
 
 Bump(s, c) == [s EXCEPT !.fc[c] = @ + 1]
@@ -225,6 +266,16 @@ HandleSettings(s, f) ==
           ELSE CASE f.pay \in {"push2", "frame_small"} -> GoAwayRes(s1, "PE", "-")
                  [] f.pay = "win_big" -> GoAwayRes(s1, "FCE", "-")
                  [] f.pay = "unknown_id" -> Res(Bump(Bump(s1, "glitch"), "gmin"), Handle, "-")
+                 \* update_initial_window_size: the delta is applied to every stream of the map
+                 [] f.pay \in IwsPay ->
+                      LET d == IwsVal(f.pay) - s1.iws
+                          over == \E x \in OddSids : InMap(s1, x) /\ Over(s1.sw[x], d)
+                      IN IF over /\ "WinSaturate" \notin Deviations THEN GoAwayRes(s1, "FCE", "-")
+                         ELSE Res([s1 EXCEPT !.iws = IwsVal(f.pay),
+                                             !.sw = [x \in OddSids |->
+                                                       IF ~InMap(s1, x) THEN 0
+                                                       ELSE IF Over(s1.sw[x], d) THEN WMax ELSE s1.sw[x] + d]],
+                                  Handle, "-")
                  [] OTHER -> Res(s1, Handle, "-")
 
 HandlePing(s, f) ==
@@ -234,7 +285,9 @@ HandlePing(s, f) ==
 HandleGoaway(s, f) ==
   LET kept == IF f.pay = "lastmax" THEN s.ss
               ELSE [x \in OddSids |-> IF InMap(s, x) THEN "closed" ELSE s.ss[x]]
-      s1 == [s EXCEPT !.ss = kept]
+      s1 == [s EXCEPT !.ss = kept,
+                      !.sw = [x \in OddSids |-> IF kept[x] \in {"hdr", "open", "hcr"} THEN s.sw[x] ELSE 0],
+                      !.rem = [x \in OddSids |-> IF kept[x] \in {"hdr", "open", "hcr"} THEN s.rem[x] ELSE 0]]
   IN IF Active(s1) = 0 THEN GoAwayRes(s1, "NO", "-")
      ELSE Res([s1 EXCEPT !.cs = "draining"], Handle, "-")
 
@@ -246,9 +299,15 @@ HandleWu(s, f) ==
   ELSE IF f.sid = 0
   THEN LET s1 == Bump(s, "wu0")
        IN IF Tripped(s1) THEN FloodRes(s1)
-          ELSE IF f.pay = "incmax" THEN GoAwayRes(s1, "FCE", "-") ELSE Res(s1, Handle, "-")
+          ELSE IF Over(s1.cw, WuInc(f.pay))          \* checked_add on the accumulated connection window
+               THEN IF "WinSaturate" \in Deviations THEN Res([s1 EXCEPT !.cw = WMax], Handle, "-")
+                    ELSE GoAwayRes(s1, "FCE", "-")
+               ELSE Res([s1 EXCEPT !.cw = @ + WuInc(f.pay)], Handle, "-")
   ELSE IF InMap(s, f.sid)
-  THEN IF f.pay = "incmax" THEN ResetInMap(s, f.sid, "FCE") ELSE Res(s, Handle, "-")
+  THEN IF Over(s.sw[f.sid], WuInc(f.pay))            \* checked_add on the accumulated stream window
+       THEN IF "WinSaturate" \in Deviations THEN Res([s EXCEPT !.sw[f.sid] = WMax], Handle, "-")
+            ELSE ResetInMap(s, f.sid, "FCE")
+       ELSE Res([s EXCEPT !.sw[f.sid] = @ + WuInc(f.pay)], Handle, "-")
   ELSE LET s1 == Bump(s, "glitch") IN IF Tripped(s1) THEN FloodRes(s1) ELSE Res(s1, Ignore, "-")
 
 HandleFrame(s, f, new) ==
@@ -289,7 +348,8 @@ HeaderStage(s, f) ==
        ELSE BodyStage(s, f, FALSE, Ignore)
   ELSE IF f.ty = "HEADERS" /\ f.sid \in OddSids /\ f.sid > s.wm /\ f.sid > s.hi   \* a refused id is not accepted again
   THEN IF s.cs = "draining" \/ Active(s) >= MaxStreams THEN Refuse(s, f)
-       ELSE BodyStage([SetSS(s, f.sid, "hdr") EXCEPT !.hi = Max2(@, f.sid), !.wm = f.sid + 1], f, TRUE, Ignore)
+       ELSE BodyStage([SetSS(s, f.sid, "hdr") EXCEPT !.hi = Max2(@, f.sid), !.wm = f.sid + 1, !.sw[f.sid] = s.iws],
+                      f, TRUE, Ignore)
   ELSE IF f.ty = "PRIORITY" THEN BodyStage(s, f, FALSE, Ignore)
   ELSE IF f.sid <= s.hi
   THEN IF f.ty \in {"RST", "WU"}
@@ -323,10 +383,26 @@ SozuRaw(s, f) ==
        ELSE Res([s EXCEPT !.ecRef = IF HasEH(f) THEN 0 ELSE @], Ignore, "-")
   ELSE HeaderStage(s, f)
 
+\* the writer: every stream with unsent response bytes sends what its window allows (the connection window never
+\* binds in the model universe: at most 3 x BigBody bytes are ever sent, see TypeOK); a body sent completely ends the
+\* stream (END_STREAM)
+TxN(s, x) == IF InMap(s, x) /\ s.rem[x] > 0 /\ s.sw[x] > 0 THEN Min2(s.rem[x], s.sw[x]) ELSE 0
+RECURSIVE SumTx(_, _)
+SumTx(s, S) == IF S = {} THEN 0 ELSE LET x == CHOOSE y \in S : TRUE IN TxN(s, x) + SumTx(s, S \ {x})
+Drain(s) ==
+  LET fin(x) == TxN(s, x) > 0 /\ TxN(s, x) = s.rem[x]
+  IN [s EXCEPT !.cw = @ - SumTx(s, OddSids),
+               !.sw = [x \in OddSids |-> IF fin(x) THEN 0 ELSE s.sw[x] - TxN(s, x)],
+               !.rem = [x \in OddSids |-> s.rem[x] - TxN(s, x)],
+               !.ss = [x \in OddSids |-> IF fin(x) THEN "closed" ELSE s.ss[x]]]
+\* the bytes a state is about to send: {[sid, n, fin]}
+TxSet(s) == {[sid |-> x, n |-> TxN(s, x), fin |-> TxN(s, x) = s.rem[x]] : x \in {y \in OddSids : TxN(s, y) > 0}}
+DrainRes(c) == IF c.s.gs THEN c ELSE [c EXCEPT !.s = Drain(c.s)]
+
 \* whatever the receiver does, a block with an inserting literal leaves the entry in the peer's encoder table;
 \* a receiver that keeps the connection must have decompressed it (RFC 9113 4.3)
 Sozu(s, f) ==
-  LET c == Drained(SozuRaw(s, f))
+  LET c == Drained(DrainRes(SozuRaw(s, f)))
       add == f.ty = "HEADERS" /\ f.pay = "idx_add" /\ ~Dead(s) /\ s.cs # "preface"
       c1 == IF add THEN [c EXCEPT !.s.hpPeer = TRUE,
                                    !.s.hpSozu = IF "RefusedBlockDropped" \in Deviations THEN @ ELSE (@ \/ ~c.s.gs)]
@@ -397,12 +473,13 @@ StreamAdm(s, f) ==
                      [] f.pay = "idx_use" /\ ~s.hpPeer -> {Goaway("CE")}
                      [] OTHER -> {Handle}
               [] f.ty = "WU" /\ f.pay = "inc0" -> {Rst("PE"), Goaway("PE")}
-              [] f.ty = "WU" /\ f.pay = "incmax" -> {Rst("FCE"), Goaway("FCE")}
+              \* 6.9.1: the sum of the stream's window and the increment must not exceed 2^31-1
+              [] f.ty = "WU" -> IF Over(s.sw[f.sid], WuInc(f.pay)) THEN {Rst("FCE"), Goaway("FCE")} ELSE {Handle}
               [] OTHER -> {Handle}
        [] e = "hcr" ->
             CASE f.ty \in {"DATA", "HEADERS"} -> {Rst("SC"), Goaway("SC")}
               [] f.ty = "WU" /\ f.pay = "inc0" -> {Rst("PE"), Goaway("PE")}
-              [] f.ty = "WU" /\ f.pay = "incmax" -> {Rst("FCE"), Goaway("FCE")}
+              [] f.ty = "WU" -> IF Over(s.sw[f.sid], WuInc(f.pay)) THEN {Rst("FCE"), Goaway("FCE")} ELSE {Handle}
               [] OTHER -> {Handle}
        [] closedLike ->
             CASE f.ty = "DATA" -> {Rst("SC"), Goaway("SC")} \cup (IF e = "rstUs" THEN {Ignore} ELSE {})
@@ -418,10 +495,15 @@ ConnAdm(s, f) ==       \* frames on stream 0 (and unknown types), sizes and stre
          IF f.fl = "ACK" THEN (IF s.cs = "settingsWait" THEN {Handle} ELSE {Handle, Ignore, Goaway("PE")})
          ELSE CASE f.pay \in {"push2", "frame_small"} -> {Goaway("PE")}
                 [] f.pay = "win_big" -> {Goaway("FCE")}
+                \* 6.9.2: a change of the initial window size that takes any stream window past 2^31-1 is a
+                \* connection error FLOW_CONTROL_ERROR; otherwise every window moves by the difference (it may
+                \* become negative) and the SETTINGS is acknowledged
+                [] f.pay \in IwsPay -> IF \E x \in OddSids : InMap(s, x) /\ Over(s.sw[x], IwsVal(f.pay) - s.iws)
+                                       THEN {Goaway("FCE")} ELSE {Handle}
                 [] OTHER -> {Handle}
     [] f.ty = "PING" -> IF f.fl = "ACK" THEN {Handle, Ignore} ELSE {Handle}
     [] f.ty = "GOAWAY" -> {Handle, Goaway("NO"), CloseR}
-    [] f.ty = "WU" -> CASE f.pay = "inc0" -> {Goaway("PE")} [] f.pay = "incmax" -> {Goaway("FCE")} [] OTHER -> {Handle}
+    [] f.ty = "WU" -> CASE f.pay = "inc0" -> {Goaway("PE")} [] Over(s.cw, WuInc(f.pay)) -> {Goaway("FCE")} [] OTHER -> {Handle}
     [] f.ty = "PU" -> CASE f.pay = "ps0" -> {Goaway("PE")} [] f.pay = "ps5" -> {Handle, Ignore, Goaway("PE")} [] OTHER -> {Handle, Ignore}
     [] OTHER -> {Ignore}         \* UNK: MUST be ignored
 
@@ -464,8 +546,8 @@ React(s, f) ==
 (* Actions *)
 Valid(s, f) == LET c == Sozu(s, f) IN c.r = Handle /\ c.why = "-" /\ ~c.s.gs /\ c.r \in React(s, f)
 
-Step(op, f, c, adm, blk, fwd, dev, trl) ==
-  [op |-> op, f |-> f, code |-> c, adm |-> adm, blk |-> blk, fwd |-> fwd, dev |-> dev, trl |-> trl]
+Step(op, f, c, adm, blk, fwd, dev, trl, tx, lg) ==
+  [op |-> op, f |-> f, code |-> c, adm |-> adm, blk |-> blk, fwd |-> fwd, dev |-> dev, trl |-> trl, tx |-> tx, lg |-> lg]
 \* a HEADERS frame on a stream whose request headers are complete carries trailers
 Trl(s, f) == f.ty = "HEADERS" /\ f.sid \in OddSids /\ s.ss[f.sid] \in {"open", "hcr"}
 
@@ -479,41 +561,81 @@ DevOf(s, f) ==
 NoFrame == F("-", "-", 0, "-", "-")
 HRec(h) == IF Generating THEN Append(hist, h) ELSE hist
 
+\* response bytes the frame sets free (the code model's prediction; only meaningful when the reaction is the predicted one)
+TxOf(s, f) == LET c == SozuRaw(s, f) IN IF Dead(s) \/ c.s.gs THEN {} ELSE TxSet(c.s)
+\* the ledger situation the frame meets (which windows decide the reaction, and in which class they are)
+Lg(s, f) ==
+  CASE f.ty = "WU" /\ f.sid = 0 /\ f.len = "ok" -> {<<"conn", LClass(s.cw), "-">>}
+    [] f.ty = "WU" /\ f.len = "ok" /\ InMap(s, f.sid) ->
+         {<<"stream", LClass(s.sw[f.sid]), IF s.rem[f.sid] > 0 THEN "stalled" ELSE "-">>}
+    [] f.ty = "SETTINGS" /\ f.pay \in IwsPay ->
+         {<<"iws", LClass(s.iws), "-">>}
+         \cup {<<"stream", LClass(s.sw[x]), IF s.rem[x] > 0 THEN "stalled" ELSE "-">> : x \in {y \in OddSids : InMap(s, y)}}
+    [] OTHER -> {}
+
 \* "mc": every state reached by at most MaxValid valid frames, then every sequence of at most MaxDepth frames
 CanStep(s) == s.cs # "closed" /\ (IF Emit = "mc" THEN s.nany < MaxDepth ELSE s.depth < MaxDepth)
+InPrefix(s) == s.nany = 0 /\ s.nvalid < MaxValid
+
+\* the flow-control alphabet: requests, WINDOW_UPDATEs, INITIAL_WINDOW_SIZE changes, and what ends a stream
+WinAlphabet ==
+  {f \in Frames : \/ f.ty = "WU" /\ f.len = "ok" /\ f.sid \in {0, 1, 3}
+                  \/ f.ty = "SETTINGS" /\ f.pay \in IwsPay
+                  \/ f.ty = "HEADERS" /\ f.pay = "req" /\ f.fl \in {"EH", "EHES"} /\ f.sid \in {1, 3} /\ f.len = "ok"
+                  \/ f.ty = "DATA" /\ f.fl = "ES" /\ f.len = "ok" /\ f.pay = "x" /\ f.sid \in {1, 3}
+                  \/ f.ty = "RST" /\ f.len = "ok" /\ f.sid \in {1, 3}}
+WinOnly(f) == f.pay \in IwsPay \cup {"near", "tomax"}
+\* frames the valid prefix of a generator / of the "mc" mode is drawn from: with Focus "win" the flow-control
+\* alphabet; the general cover generator leaves the ledger in its default state (its tables still hold every frame)
+PrefixAlphabet(f) == Focus = "win" => f \in WinAlphabet
+\* the exhaustive configurations and the general cover generator do not *take* the steps that move the ledger far
+\* from its default (their invariants / tables still evaluate every frame in every state they reach); the ledger
+\* is explored by the Focus "win" configurations and by the random walks
+StepAlphabet(f) == (Focus = "all" /\ Emit # "walk") => ~WinOnly(f)
 
 \* client preface: "ok" = magic + SETTINGS; the others are not a valid connection start
 Peer_Preface(kind) ==
   /\ st.cs = "preface" /\ ~st.gs /\ CanStep(st)
-  /\ (Emit = "walk" /\ MaxValid > 1 => kind = "ok")      \* bad prefaces are sampled by the MaxValid = 1 walks only
+  /\ ((Emit = "walk" /\ MaxValid > 1) \/ Focus = "win" => kind = "ok")      \* bad prefaces are sampled by the MaxValid = 1 walks only
   /\ st' = IF kind = "ok" THEN [st EXCEPT !.cs = "settingsWait", !.depth = IF Emit = "mc" THEN @ ELSE @ + 1, !.fc.settings = 1, !.fc.settingsLife = 1]  \* the preface SETTINGS counts (per-window; sozu does not count it for the lifetime... it does: same handler)
                           ELSE [st EXCEPT !.gs = TRUE, !.depth = IF Emit = "mc" THEN @ ELSE @ + 1]
   /\ hist' = HRec(Step("preface", F("-", "-", 0, "-", kind),
                       IF kind = "ok" THEN Handle ELSE CloseR,
-                      IF kind = "ok" THEN {Handle} ELSE {CloseR, Goaway("PE")}, FALSE, 0, {}, FALSE))
+                      IF kind = "ok" THEN {Handle} ELSE {CloseR, Goaway("PE")}, FALSE, 0, {}, FALSE, {}, {}))
 PrefaceKinds == {"ok", "nomagic", "notsettings", "settings_ack"}
 
 Peer_Frame(f) ==
   /\ CanStep(st)
-  /\ (Emit = "cover" => st.nany = 0 /\ st.nvalid < MaxValid)
+  /\ (Emit = "cover" => InPrefix(st))
+  /\ (Emit = "walk" /\ Focus = "win" => f \in WinAlphabet)
+  /\ StepAlphabet(f)
   /\ LET c == Sozu(st, f)
-         isValid == Valid(st, f)
-     IN /\ (Generating /\ st.nany = 0 /\ st.nvalid < MaxValid) => isValid     \* generator: valid prefix first
+         pre == InPrefix(st) /\ Valid(st, f) /\ PrefixAlphabet(f)
+     IN /\ (Generating /\ InPrefix(st)) => pre                                 \* generator: valid prefix first
         /\ st' = [c.s EXCEPT !.depth = IF Emit = "mc" THEN @ ELSE @ + 1,
-                             !.nvalid = IF st.nany = 0 /\ isValid /\ st.nvalid < MaxValid THEN @ + 1 ELSE @,
-                             !.nany = IF st.nany = 0 /\ isValid /\ st.nvalid < MaxValid THEN @ ELSE @ + 1]
-        /\ hist' = HRec(Step("frame", f, c.r, React(st, f), BlockOpen(c.s), Fwd(st, c.s), DevOf(st, f), Trl(st, f)))
+                             !.nvalid = IF pre THEN @ + 1 ELSE @,
+                             !.nany = IF pre THEN @ ELSE @ + 1]
+        /\ hist' = HRec(Step("frame", f, c.r, React(st, f), BlockOpen(c.s), Fwd(st, c.s), DevOf(st, f), Trl(st, f),
+                             TxOf(st, f), Lg(st, f)))
 
-\* the backend answers a complete request: response HEADERS + DATA(END_STREAM), stream closed
-Sozu_Respond(x) ==
-  /\ CanStep(st) /\ ~st.gs /\ st.ec = 0 /\ st.ss[x] = "hcr"
-  /\ (Emit # "off" => st.nany = 0 /\ st.nvalid < MaxValid)
-  /\ LET s1 == SetSS(st, x, "closed")
-         \* the last stream of a draining connection: final GOAWAY(NO_ERROR) and close
-         s2 == IF st.cs = "draining" /\ Active(s1) = 0 THEN [s1 EXCEPT !.gs = TRUE] ELSE s1
+\* the backend answers a complete request: response HEADERS, then as much of the body ("ok": SmallBody bytes,
+\* "big": BigBody bytes) as the stream's window allows; the stream is closed once the body is out (END_STREAM)
+RespondKinds == {"ok", "big"}
+RespondPre(s, x, kind) == [s EXCEPT !.rem[x] = IF kind = "big" THEN BigBody ELSE SmallBody]
+RespondState(s, x, kind) ==
+  LET s1 == Drain(RespondPre(s, x, kind))
+  \* the last stream of a draining connection: final GOAWAY(NO_ERROR) and close
+  IN IF s.cs = "draining" /\ Active(s1) = 0 THEN [s1 EXCEPT !.gs = TRUE] ELSE s1
+Sozu_Respond(x, kind) ==
+  /\ CanStep(st) /\ ~st.gs /\ st.ec = 0 /\ st.ss[x] = "hcr" /\ st.rem[x] = 0
+  /\ (Emit # "off" => InPrefix(st))
+  /\ (kind = "big" => Focus = "win" \/ Emit = "walk")
+  /\ LET s2 == RespondState(st, x, kind)
          r  == IF s2.gs THEN Goaway("NO") ELSE Handle
      IN /\ st' = [s2 EXCEPT !.depth = IF Emit = "mc" THEN @ ELSE @ + 1, !.nvalid = IF Emit = "off" THEN @ ELSE @ + 1]
-        /\ hist' = HRec(Step("respond", F("-", "-", x, "-", "-"), r, {r}, FALSE, 0, {}, FALSE))
+        /\ hist' = HRec(Step("respond", F("-", "-", x, "-", kind), r, {r}, FALSE, 0, {}, FALSE,
+                             TxSet(RespondPre(st, x, kind)),
+                             {<<"stream", LClass(st.sw[x]), "respond">>}))
 
 \* after a GOAWAY (or a silent drop) the socket is released
 Sozu_Close ==
@@ -539,7 +661,7 @@ Sozu_SettingsTimeout ==
 Init == st = InitState /\ hist = <<>>
 Next == \/ \E k \in PrefaceKinds : Peer_Preface(k)
         \/ \E f \in Frames : Peer_Frame(f)
-        \/ \E x \in OddSids : Sozu_Respond(x)
+        \/ \E x \in OddSids, k \in RespondKinds : Sozu_Respond(x, k)
         \/ Sozu_Close \/ Tick_Decay \/ Sozu_SettingsTimeout
 Spec == Init /\ [][Next]_vars
 FairSpec == Spec /\ WF_vars(Sozu_Close)
@@ -552,6 +674,10 @@ TypeOK == /\ st.cs \in {"preface", "settingsWait", "open", "draining", "closed"}
           /\ \A x \in OddSids : st.ss[x] \in StreamStates
           /\ st.hi \in Nat /\ st.ec \in {0} \cup OddSids /\ st.ecRef \in {0} \cup OddSids
           /\ \A c \in Counters : st.fc[c] \in Nat
+          /\ st.iws \in 0..WMax /\ st.cw \in (3 * BigBody)..WMax            \* the connection window never binds
+          /\ \A x \in OddSids : /\ st.sw[x] \in (0 - 3 * BigBody)..WMax /\ st.rem[x] \in 0..BigBody
+                                /\ (~InMap(st, x) => st.sw[x] = 0 /\ st.rem[x] = 0)
+                                /\ (st.rem[x] > 0 => st.ss[x] = "hcr" /\ (st.sw[x] <= 0 \/ Dead(st)))   \* unsent bytes: the window is closed
 
 \* every frame, in every state, yields a reaction of the relation
 P_C15_React == \A f \in Frames : Sozu(st, f).r \in React(st, f)
@@ -576,6 +702,7 @@ P_C15_ConnErrorCloses ==
 
 \* error-trace helper (ALIAS): the frames that break P_C15_React in this state
 DebugAlias == [cs |-> st.cs, ss |-> st.ss, hi |-> st.hi, ec |-> st.ec, fc |-> st.fc,
+               iws |-> st.iws, cw |-> st.cw, sw |-> st.sw, rem |-> st.rem,
                bad |-> {<<f, Sozu(st, f).r, React(st, f)>> : f \in {g \in Frames : Sozu(st, g).r \notin React(st, g)}}]
 
 P_C15 == P_C15_React /\ P_C15_Total /\ P_C15_Streams /\ P_C15_Structural /\ P_C15_ConnErrorCloses
@@ -583,18 +710,20 @@ P_C15 == P_C15_React /\ P_C15_Total /\ P_C15_Streams /\ P_C15_Structural /\ P_C1
 \* vacuity guards (TLC's -coverage runs out of memory on this module): each of these MUST be violated
 Never_Peer_Preface == [][~(\E k \in PrefaceKinds : Peer_Preface(k))]_vars
 Never_Peer_Frame == [][~(\E f \in Frames : Peer_Frame(f))]_vars
-Never_Sozu_Respond == [][~(\E x \in OddSids : Sozu_Respond(x))]_vars
+Never_Sozu_Respond == [][~(\E x \in OddSids, k \in RespondKinds : Sozu_Respond(x, k))]_vars
 Never_Sozu_Close == [][~Sozu_Close]_vars
 Never_Tick_Decay == [][~Tick_Decay]_vars
 Never_Sozu_SettingsTimeout == [][~Sozu_SettingsTimeout]_vars
 
 ---------------------------------------------------------------------------
 (* Generators *)
-FrameSeq == SetToSeq(Frames)
+\* with Focus "win" the tables hold the frames whose reaction the ledger decides (plus the rest of the alphabet)
+FrameSeq == SetToSeq(IF Focus = "win" THEN WinAlphabet ELSE Frames)
 Table(s) == [i \in 1..Len(FrameSeq) |->
                LET c == Sozu(s, FrameSeq[i])
                IN [f |-> FrameSeq[i], code |-> c.r, adm |-> React(s, FrameSeq[i]), blk |-> BlockOpen(c.s),
-                   fwd |-> Fwd(s, c.s), dev |-> DevOf(s, FrameSeq[i]), trl |-> Trl(s, FrameSeq[i])]]
+                   fwd |-> Fwd(s, c.s), dev |-> DevOf(s, FrameSeq[i]), trl |-> Trl(s, FrameSeq[i]),
+                   tx |-> TxOf(s, FrameSeq[i]), lg |-> Lg(s, FrameSeq[i])]]
 
 \* "cover": one line per distinct state reached by the valid prefix, with the full frame table
 \* "walk" : one line per finished behaviour (simulation mode)
